@@ -30,6 +30,7 @@ var _ storage.Store
 //@        mb.first <= mb.messages[k].index && mb.messages[k].index <= mb.last && mb.messages[k].mailbox == mb.name
 
 func ghost_closed(c chan *msgDone) bool        { panic("ghost") }
+func ghost_nsent(c chan *msgDone) int          { panic("ghost") }
 func ghost_rcontent(r io.Reader) vcTok         { panic("ghost") }
 func ghost_srcContent(m storage.Message) vcTok { panic("ghost") }
 
@@ -154,7 +155,7 @@ func ghost_emitted(eb *extension.AsyncEventBroker[event.MessageMetadata]) vcSeq[
 // RemoveMessage: a message that does not exist is ErrNotExist.
 //@ func (*Store).RemoveMessage
 //@   requires spec_storeOK(s)
-//@   modifies mapof(s.boxes), mapof(s.boxes[mailbox].messages), ghost_nemitted(&s.extHost.Events.AfterMessageDeleted), ghost_emitted(&s.extHost.Events.AfterMessageDeleted)
+//@   modifies mapof(s.boxes), mapof(s.boxes[mailbox].messages), ghost_nemitted(&s.extHost.Events.AfterMessageDeleted), ghost_emitted(&s.extHost.Events.AfterMessageDeleted), allof(ghost_nsent)
 //@   ensures spec_storeOK(s)
 //@   ensures[notExist] !(old(vcHas(s.boxes, mailbox)) && old(vcHas(s.boxes[mailbox].messages, id))) ==> ret == storage.ErrNotExist
 //@   ensures[removed] old(vcHas(s.boxes, mailbox)) && old(vcHas(s.boxes[mailbox].messages, id)) ==> ret == nil && !vcHas(s.boxes[mailbox].messages, id)
@@ -172,7 +173,7 @@ func ghost_emitted(eb *extension.AsyncEventBroker[event.MessageMetadata]) vcSeq[
 //@   inline
 //@   loop 1: invariant spec_boxInv(mb) && s != nil && s.cap > 0 && m != nil && id == strconv.Itoa(mb.last) && vcHas(mb.messages, id) && mb.messages[id] == m
 //@   loop 1: invariant forall k string :: { vcHas(mb.messages, k) } old(vcHas(mb.messages, k)) && old(mb.messages[k].index) >= mb.first ==> vcHas(mb.messages, k) && mb.messages[k] == old(mb.messages[k])
-//@   loop 1: invariant (vcFresh(evicted) || len(evicted) == 0) && len(evicted) + len(mb.messages) == old(len(mb.messages)) + 1
+//@   loop 1: invariant (vcFresh(evicted) || cap(evicted) == 0) && len(evicted) + len(mb.messages) == old(len(mb.messages)) + 1
 //@   loop 1: invariant forall i int :: { evicted[i] } 0 <= i && i < len(evicted) ==> evicted[i] != nil
 //@   loop 1: decreases mb.last - mb.first
 
@@ -180,7 +181,7 @@ func ghost_emitted(eb *extension.AsyncEventBroker[event.MessageMetadata]) vcSeq[
 //@ func (*Store).capEvicted
 //@   requires s.extHost != nil && s.extHost.Events != nil && !ghost_closed(s.remove)
 //@   requires forall i int :: { evicted[i] } 0 <= i && i < len(evicted) ==> evicted[i] != nil
-//@   modifies ghost_nemitted(&s.extHost.Events.AfterMessageDeleted), ghost_emitted(&s.extHost.Events.AfterMessageDeleted)
+//@   modifies ghost_nemitted(&s.extHost.Events.AfterMessageDeleted), ghost_emitted(&s.extHost.Events.AfterMessageDeleted), allof(ghost_nsent)
 //@   ensures[oneEventEach C16] ghost_nemitted(&s.extHost.Events.AfterMessageDeleted) == old(ghost_nemitted(&s.extHost.Events.AfterMessageDeleted)) + len(evicted)
 //@   ensures[eventIdentity C16] forall i int :: { evicted[i] } 0 <= i && i < len(evicted) ==>
 //@      vcSeqAt(ghost_emitted(&s.extHost.Events.AfterMessageDeleted), old(ghost_nemitted(&s.extHost.Events.AfterMessageDeleted)) + i).ID == evicted[i].id &&
@@ -190,11 +191,13 @@ func ghost_emitted(eb *extension.AsyncEventBroker[event.MessageMetadata]) vcSeq[
 //@      vcSeqAt(ghost_emitted(&s.extHost.Events.AfterMessageDeleted), old(ghost_nemitted(&s.extHost.Events.AfterMessageDeleted)) + i).ID == evicted[i].id &&
 //@      vcSeqAt(ghost_emitted(&s.extHost.Events.AfterMessageDeleted), old(ghost_nemitted(&s.extHost.Events.AfterMessageDeleted)) + i).Mailbox == evicted[i].mailbox
 //@   loop 1: decreases len(evicted) - ridx
+//@   ensures[allReported C08] s.remove != nil ==> ghost_nsent(s.remove) == old(ghost_nsent(s.remove)) + len(evicted)
+//@   loop 1: invariant s.remove != nil ==> ghost_nsent(s.remove) == old(ghost_nsent(s.remove)) + ridx
 //@   serves C16 C08 C09
 
 //@ func (*Store).AddMessage
 //@   requires spec_storeOK(s) && message != nil
-//@   modifies mapof(s.boxes), s.boxes[message.Mailbox()].last, s.boxes[message.Mailbox()].first, mapof(s.boxes[message.Mailbox()].messages),
+//@   modifies mapof(s.boxes), s.boxes[message.Mailbox()].last, s.boxes[message.Mailbox()].first, mapof(s.boxes[message.Mailbox()].messages),, allof(ghost_nsent)
 //@      ghost_nemitted(&s.extHost.Events.AfterMessageDeleted), ghost_emitted(&s.extHost.Events.AfterMessageDeleted),
 //@      allof(ghost_rcontent), ghost_srcContent(message)
 //@   ensures[storesSource C02] err == nil ==> vcTokBytes(s.boxes[message.Mailbox()].messages[id].source) == storage.Ghost_srcContent(message)
@@ -221,7 +224,7 @@ func ghost_emitted(eb *extension.AsyncEventBroker[event.MessageMetadata]) vcSeq[
 //@   inline
 //@ func (*Store).PurgeMessages
 //@   requires spec_storeOK(s)
-//@   modifies mapof(s.boxes), s.boxes[mailbox].messages, ghost_nemitted(&s.extHost.Events.AfterMessageDeleted), ghost_emitted(&s.extHost.Events.AfterMessageDeleted)
+//@   modifies mapof(s.boxes), s.boxes[mailbox].messages, ghost_nemitted(&s.extHost.Events.AfterMessageDeleted), ghost_emitted(&s.extHost.Events.AfterMessageDeleted), allof(ghost_nsent)
 //@   ensures spec_storeOK(s) && ret == nil
 //@   ensures[emptied] vcHas(s.boxes, mailbox) && len(s.boxes[mailbox].messages) == 0
 //@   ensures[oneEventEach C16] old(vcHas(s.boxes, mailbox)) ==>
@@ -270,6 +273,10 @@ func ghost_closedDone(c chan struct{}) bool        { panic("ghost") }
 // What is sent to the enforcer: a request with a message and an open completion channel (checked at
 // the sends in enforcerDeliver / enforcerRemove, assumed at the receives).
 //@ pred chaninv_incoming(md *msgDone) bool = md != nil && md.msg != nil && md.done != nil && !ghost_closedDone(md.done)
+// A delivery is reported to the enforcer only after every message the mailbox cap evicted for it has
+// been reported as removed: otherwise the enforcer sees an overflow that does not exist and evicts mail
+// that need not go (C08: only what is necessary).  Checked in the sender (AddMessage) at the send.
+//@ pred chansend_incoming(md *msgDone, s *Store, evicted []*Message) bool = s.remove != nil ==> ghost_nsent(s.remove) == old(ghost_nsent(s.remove)) + len(evicted)
 //@ pred chaninv_remove(md *msgDone) bool = md != nil && md.msg != nil && md.done != nil && !ghost_closedDone(md.done)
 // ASSUMED (sequential rendez-vous model, D2): a message whose removal is reported was delivered to the
 // enforcer before, so it carries its list element.
